@@ -314,7 +314,8 @@ def extmod_job(r, k):
             names = fields if cls else [f"k{q}" for q in range(r.randint(0, 5))]
             insts.append(dict(name=f"x{e}_{j}", kind="ext", ext=e, params=[[n, dict_value(r)] for n in names if (not cls) or r.random() < 0.8]))
     r.shuffle(insts)
-    return dict(source="insts", name=f"X{k % 5}", exts=exts, insts=insts, wrap=r.random() < 0.3, domain=r.choice([None, "pkg"]))
+    return dict(source="insts", name=f"X{k % 5}", exts=exts, insts=insts, wrap=r.random() < 0.3, domain=r.choice([None, "pkg"]),
+                bare=r.random() < 0.3)
 
 
 def exhaustive_jobs():
